@@ -86,6 +86,9 @@ func tokVal(t string) interface{} {
 	case strings.HasPrefix(t, "i:"):
 		i, err := strconv.ParseInt(t[2:], 10, 64)
 		if err != nil {
+			if u, uerr := strconv.ParseUint(t[2:], 10, 64); uerr == nil {
+				return u // beyond int64: a Go uint64 (2^63 … 2^64-1)
+			}
 			panic("bad int token " + t)
 		}
 		if i%2 == 0 {
@@ -110,6 +113,8 @@ func valTok(v interface{}) []string {
 		return []string{"i:" + itoa(int64(x))}
 	case int64:
 		return []string{"i:" + itoa(x)}
+	case uint64:
+		return []string{"i:" + strconv.FormatUint(x, 10)}
 	case float64:
 		return []string{ftok(x)}
 	case string:
@@ -143,6 +148,9 @@ var c03Strs = []string{"a", "b", "a", "true", "1", "", "x,y", "<nil>"}
 
 func genNum(rng *rand.Rand) string {
 	switch k := rng.Intn(20); {
+	case k < 1:
+		// unsigned 64-bit values beyond int64: a conversion through int64 would wrap them to negative numbers
+		return []string{"i:9223372036854775808", "i:18446744073709551615", "i:9223372036854777856"}[rng.Intn(3)]
 	case k < 7:
 		return "i:" + itoa(c03Ints[rng.Intn(len(c03Ints))])
 	case k < 10:
@@ -480,7 +488,7 @@ func genSQL(rng *rand.Rand) Case {
 		// the expression engine computes int∘int in integers (modelled); keep the 2^53+1 int out so that
 		// no product overflows int64 (wrap-around of Go ints is not modelled; integer arithmetic is C06 / C12)
 		for {
-			if t := genNum(rng); t != "i:9007199254740993" {
+			if t := genNum(rng); t != "i:9007199254740993" && len(t) < 20 {
 				return t
 			}
 		}
@@ -637,6 +645,8 @@ func plainNum(v interface{}) (float64, bool) {
 	case int:
 		return float64(x), true
 	case int64:
+		return float64(x), true
+	case uint64:
 		return float64(x), true
 	case float64:
 		return x, true
